@@ -45,6 +45,7 @@ Quiescent(S) == MinTime(S.q) > S.now
 (* History variables                                                       *)
 (***************************************************************************)
 AuxInit == [rem      |-> [d \in Devs |-> 0],          \* C06: operational time still owed to the part in process
+            off      |-> [d \in Devs |-> 0],          \* C06: one-shot offset booked for the next cycle (public calls)
             upAcc    |-> [d \in Devs |-> 0],          \* C13: time operational
             utAcc    |-> [d \in Devs |-> 0],          \* C13: time processing
             budget   |-> [d \in Devs |-> cfg.devs[d].budget],   \* C02: part budget by the documented rule
@@ -57,12 +58,29 @@ AuxInit == [rem      |-> [d \in Devs |-> 0],          \* C06: operational time s
 
 Supplied(pre, post, s) == post.dev[s].supplied - pre.dev[s].supplied
 
+(* The cycle time owed to a part is decided by the configuration and the public calls made so far:   *)
+(* cycle time in effect after the receive callbacks, plus the one-shot offsets booked since the last *)
+(* accept (by receive callbacks for even parts, by finish callbacks for every part), floored at 0.   *)
+RECURSIVE FoldOcc(_, _, _, _, _, _)
+FoldOcc(S, occ, d, i, off, rem) ==
+    IF i > Len(occ) THEN [off |-> off, rem |-> rem]
+    ELSE LET o == occ[i] IN
+         IF o[2] # d THEN FoldOcc(S, occ, d, i + 1, off, rem)
+         ELSE IF o[1] = "recv"
+              THEN LET p == o[3]
+                       booked == off + (IF cfg.devs[d].offmod # 0 /\ ~S.part[p].batch /\ S.part[p].seq % 2 = 0
+                                        THEN cfg.devs[d].offmod ELSE 0) IN
+                   FoldOcc(S, occ, d, i + 1, 0, Max(0, CycleInEffect(S, d, p) + booked))
+              ELSE FoldOcc(S, occ, d, i + 1, off + cfg.devs[d].foff, rem)
+OwedAtAccept(S, aux, occ, d, i) ==      \* what the i-th occurrence (a receipt at d) owes
+    FoldOcc(S, SubSeq(occ, 1, i), d, 1, aux.off[d], 0).rem
+
 AuxNext(aux, pre, ev, post) ==
     LET dt == post.now - pre.now IN
     [rem |-> [d \in Devs |->
-                LET r0 == IF d \in HoldDevs /\ pre.dev[d].inp # 0 /\ Operational(pre, d) THEN aux.rem[d] - dt ELSE aux.rem[d]
-                    rc == Occ(ev, "recv", d) IN
-                IF rc # <<>> THEN Max(0, rc[Len(rc)][6] + rc[Len(rc)][7]) ELSE r0],
+                LET r0 == IF d \in HoldDevs /\ pre.dev[d].inp # 0 /\ Operational(pre, d) THEN aux.rem[d] - dt ELSE aux.rem[d] IN
+                FoldOcc(post, ev.occ, d, 1, aux.off[d], r0).rem],
+     off |-> [d \in Devs |-> FoldOcc(post, ev.occ, d, 1, aux.off[d], 0).off],
      upAcc |-> [d \in Devs |-> IF d \in Procs /\ ~pre.dev[d].down THEN aux.upAcc[d] + dt ELSE aux.upAcc[d]],
      utAcc |-> [d \in Devs |-> IF d \in Procs /\ ~pre.dev[d].down /\ pre.dev[d].inp # 0 THEN aux.utAcc[d] + dt ELSE aux.utAcc[d]],
      budget |-> [d \in Devs |->
@@ -198,12 +216,16 @@ C06(pre, ev, post, aux) ==
     C("C06.NotLate", \A d \in Timed : (pre.dev[d].inp # 0 /\ Operational(pre, d)) => Owed(d) >= 0)
     \cup C("C06.NotEarly", \A d \in Timed : (Left(d) /\ ~IsFailOf(ev, d)) => Owed(d) = 0)
     \cup C("C06.ZeroCycleOnlyWhenOwedNothing",
-           \A d \in Timed : \A i \in DOMAIN Occ(ev, "recv", d) :
-               LET o == Occ(ev, "recv", d)[i] IN
-               (post.dev[d].inp # o[3]) => Max(0, o[6] + o[7]) = 0)
+           \A d \in Timed : \A i \in DOMAIN ev.occ :
+               LET o == ev.occ[i] IN
+               (o[1] = "recv" /\ o[2] = d /\ post.dev[d].inp # o[3]) => OwedAtAccept(post, aux, ev.occ, d, i) = 0)
     \cup C("C06.FinishedWhenOwedNothing",
            \* a part whose time is up does not stay in process while the clock advances
            \A d \in Timed : (post.dev[d].inp # 0 /\ Operational(post, d) /\ a1.rem[d] = 0) => ~Quiescent(post))
+    \cup C("C06.CycleTimeInEffectIsTheConfigured",
+           \* the public cycle_time read after the receive callbacks is the one the configuration prescribes
+           \A i \in DOMAIN ev.occ : (ev.occ[i][1] = "recv" /\ ev.occ[i][2] \in Timed)
+                                        => ev.occ[i][6] = CycleInEffect(post, ev.occ[i][2], ev.occ[i][3]))
     \cup C("C06.FailureLosesNotFinishes",
            \A d \in Procs : (IsFailOf(ev, d) /\ pre.dev[d].inp # 0) =>
                 (post.dev[d].inp = 0 /\ post.dev[d].out = pre.dev[d].out /\ Occ(ev, "prod", d) = <<>>))
@@ -211,7 +233,9 @@ C06(pre, ev, post, aux) ==
            \* a second part is received in the same step only after the first was finished in zero time
            \A d \in Timed : LET rc == Occ(ev, "recv", d) IN
                /\ (rc # <<>> => pre.dev[d].inp = 0 /\ pre.dev[d].out = 0)
-               /\ \A i \in 1..(Len(rc) - 1) : Max(0, rc[i][6] + rc[i][7]) = 0)
+               /\ \A i \in DOMAIN ev.occ :
+                     (ev.occ[i][1] = "recv" /\ ev.occ[i][2] = d /\ \E j \in (i + 1)..Len(ev.occ) : ev.occ[j][1] = "recv" /\ ev.occ[j][2] = d)
+                        => OwedAtAccept(post, aux, ev.occ, d, i) = 0)
     \cup C("C06.ProducedOncePerPart", \A d \in Procs : Len(Occ(ev, "prod", d)) <= Max(1, Len(Occ(ev, "recv", d))) /\
                                 (Occ(ev, "prod", d) # <<>> => (Left(d) \/ Occ(ev, "recv", d) # <<>>)))
     \cup C("C06.SourceNeedsFullCycle",
